@@ -84,7 +84,7 @@ func runHistoryTree(r *vf.Run, g *vf.Rng, calls []hcall, listing bool, capacity 
 			sh.apply(c)
 		}
 	}
-	t := &cloneTree{g: g, cells: cells}
+	t := &cloneTree{g: g, cells: cells, parentLabels: true, all: calls}
 	if pan := vf.Try(func() { t.feed(e, buf, calls, 0) }); pan != nil {
 		r.Fail(tag+"-clone-tree-panic", fmt.Sprintf("emitting through %s panicked: %v", t.describe(), pan), map[string]interface{}{"calls": histStrings(calls), "tree": t.log})
 		return e, sh, buf, false
